@@ -1,5 +1,8 @@
 import IrefVerif.Props.C05
 import IrefVerif.Props.C11
+import IrefVerif.Lemmas.SetterValid
+import IrefVerif.Lemmas.IriBytes
+import IrefVerif.Props.Valid
 
 /-!
 # C04 — safe mutation never breaks well-formedness
@@ -9,11 +12,20 @@ well-formed UTF-8 is part of it).  Proved at specification level, both families:
 list of components recomposes to a valid reference (assembly), so each setter preserves the
 invariant whenever its specified result is a valid list; this is discharged here for the
 setters that never need disambiguation (query, fragment, replacing a scheme or an authority,
-and the three authority-handle edits).  For the path-shaped operations (set_path,
-set_authority/set_scheme with shields, push/pop/clear/symbolic/normalize, resolve) the invariant
-is checked on the implementation after *every* step of every generated history by the
-`history` oracle (re-parse with the specification matcher, UTF-8 check, no panic), and the model
-is compared with the implementation after every step.
+and the three authority-handle edits).
+Model level (`setter_history`): for **every finite sequence** of the component setters —
+`set_scheme`, `set_authority`, `set_path`, `set_query`, `set_fragment`, each setting or removing,
+with any valid arguments — started from any valid reference of either family (octet level), the
+model of the Rust code (`Model/Reference.lean`: scans, `Vec` splices and every disambiguation
+branch) never panics (`some`) and leaves a valid reference.  By induction over the operation
+list from `setter_step`, which combines `C05.model_set_*` (the model computes the specified
+recomposition) with `Lemmas/SetterValid.lean` (the specified component list is valid: the
+shields `./`, `/`, `/.` always move the path into a production the new context allows).
+`uriRefBuf_setters`, `iriRefBuf_setters`: end to end from the generated automata.
+For the path handle (push/pop/clear/symbolic/normalize), the authority handle and resolution
+the invariant is checked on the implementation after *every* step of every generated history
+by the `history` oracle (re-parse with the specification matcher, UTF-8 check, no panic), and
+the model is compared with the implementation after every step.
 -/
 
 namespace IrefVerif.Props.C04
@@ -67,5 +79,95 @@ theorem authority_edit_inv (G : Grammar) (ok : Grammar.Ok G) (w : Text) (h : RE.
     (ha : (split w).authority.isSome) (a' : Text) (hval : RE.Matches G.authority a') :
     RE.Matches G.reference (recompose { split w with authority := some a' }) :=
   (C05.set_authority_some G ok w h ha a' hval).1
+
+/-! ## every finite sequence of component setters, on the model of the code -/
+
+open IrefVerif.Model in
+/-- one call of a component setter of `UriRefBuf` / `IriRefBuf` -/
+inductive SetOp
+  | scheme (v : Option Text)
+  | authority (v : Option Text)
+  | path (p : Text)
+  | query (v : Option Text)
+  | fragment (v : Option Text)
+
+/-- the argument is a valid value of its component type -/
+def SetOp.Valid (G : Grammar) : SetOp → Prop
+  | .scheme v => ∀ s, v = some s → RE.Matches Rfc3986.scheme s
+  | .authority v => ∀ a, v = some a → RE.Matches G.authority a
+  | .path p => RE.Matches G.path p
+  | .query v => ∀ q, v = some q → RE.Matches G.query q
+  | .fragment v => ∀ f, v = some f → RE.Matches G.fragment f
+
+/-- the model of the call (`none` = panic) -/
+def setStep (w : Text) : SetOp → Option Text
+  | .scheme v => Model.Ref.set_scheme w v
+  | .authority v => Model.Ref.set_authority w v
+  | .path p => Model.Ref.set_path w p
+  | .query v => Model.Ref.set_query w v
+  | .fragment v => Model.Ref.set_fragment w v
+
+def runOps : Text → List SetOp → Option Text
+  | w, [] => some w
+  | w, op :: ops => match setStep w op with
+    | some w' => runOps w' ops
+    | none => none
+
+/-- **one setter call keeps the buffer a valid reference and does not panic** -/
+theorem setter_step (G : Grammar) (ok : Grammar.Ok G) (okp : Grammar.OkPath G) (w : Text)
+    (h : RE.Matches G.reference w) (op : SetOp) (hop : op.Valid G) :
+    ∃ w', setStep w op = some w' ∧ RE.Matches G.reference w' := by
+  obtain ⟨hv, _⟩ := split_valid G ok w h
+  cases op with
+  | scheme v =>
+    cases v with
+    | some s =>
+      exact ⟨_, C05.model_set_scheme_some G ok w h s,
+        assemble G _ (valid_set_scheme_some G ok okp (split w) hv s (hop s rfl))⟩
+    | none =>
+      exact ⟨_, C05.model_set_scheme_none G ok w h, assemble G _ (valid_set_scheme_none G ok okp (split w) hv)⟩
+  | authority v =>
+    cases v with
+    | some a =>
+      exact ⟨_, C05.model_set_authority_some G ok w h a,
+        assemble G _ (valid_set_authority_some G ok okp (split w) hv a (hop a rfl))⟩
+    | none =>
+      exact ⟨_, C05.model_set_authority_none G ok w h,
+        assemble G _ (valid_set_authority_none G ok okp (split w) hv)⟩
+  | path p =>
+    exact ⟨_, C05.model_set_path G ok w h p, assemble G _ (valid_set_path G ok okp (split w) hv p hop)⟩
+  | query v =>
+    exact ⟨_, C05.model_set_query G ok w h v, set_query_inv G ok w h v hop⟩
+  | fragment v =>
+    exact ⟨_, C05.model_set_fragment G ok w h v, set_fragment_inv G ok w h v hop⟩
+
+/-- **every finite sequence of setter calls** (induction over the operation list) -/
+theorem setter_history (G : Grammar) (ok : Grammar.Ok G) (okp : Grammar.OkPath G) (ops : List SetOp)
+    (w : Text) (h : RE.Matches G.reference w) (hops : ∀ op ∈ ops, op.Valid G) :
+    ∃ w', runOps w ops = some w' ∧ RE.Matches G.reference w' := by
+  induction ops generalizing w with
+  | nil => exact ⟨w, rfl, h⟩
+  | cons op ops ih =>
+    obtain ⟨w1, h1, hv1⟩ := setter_step G ok okp w h op (hops op List.mem_cons_self)
+    obtain ⟨w2, h2, hv2⟩ := ih w1 hv1 (fun o ho => hops o (List.mem_cons_of_mem _ ho))
+    exact ⟨w2, by simp only [runOps, h1, h2], hv2⟩
+
+/-- end to end: any `UriRefBuf` the constructor accepts, any sequence of setters with valid
+URI components -/
+theorem uriRefBuf_setters (ops : List SetOp) (w : Text) (hb : ∀ c ∈ w, c < 256)
+    (h : accepts .uriRef w = true) (hops : ∀ op ∈ ops, op.Valid uriG) :
+    ∃ w', runOps w ops = some w' ∧ RE.Matches uriG.reference w' :=
+  setter_history uriG uriG_ok uriG_okPath ops w (Valid.uriRef_octets w hb h) hops
+
+/-- … any `IriRefBuf` (octets; arguments valid at octet level) -/
+theorem iriRefBuf_setters (ops : List SetOp) (w : Text) (hb : ∀ c ∈ w, c < 256)
+    (h : accepts .iriRef w = true) (hops : ∀ op ∈ ops, op.Valid iriGB) :
+    ∃ w', runOps w ops = some w' ∧ RE.Matches iriGB.reference w' :=
+  setter_history iriGB iriGB_ok iriGB_okPath ops w (Valid.iriRef_octets w hb h) hops
+
+/-- non-vacuity: a history that needs all three shields, run by the model -/
+example : runOps [0x73, 0x3A, 0x61, 0x3A, 0x62]
+    [.scheme none, .authority (some [0x68]), .path [0x2F, 0x2F, 0x78], .authority none, .query (some [0x71])]
+    = some [0x2F, 0x2E, 0x2F, 0x2F, 0x78, 0x3F, 0x71] := by decide
 
 end IrefVerif.Props.C04
